@@ -267,6 +267,34 @@ def shared_deferred(fn):
     if not (returned & deferredish):
         return []
     out = []
+
+    def _taken_from(v):
+        if isinstance(v, ast.Call) and \
+                isinstance(v.func, ast.Attribute) and \
+                v.func.attr in ('get', 'pop') and \
+                isinstance(v.func.value, ast.Attribute) and \
+                isinstance(v.func.value.value, ast.Name) and \
+                v.func.value.value.id == 'self':
+            return v.func.value.attr
+        if isinstance(v, ast.Subscript) and \
+                isinstance(v.value, ast.Attribute) and \
+                isinstance(v.value.value, ast.Name) and \
+                v.value.value.id == 'self':
+            return v.value.attr
+        return None
+    for n in nodes:
+        # `return self._inflight[key]` without a local in between
+        if isinstance(n, ast.Return) and n.value is not None and \
+                _taken_from(n.value) in filed:
+            attr = _taken_from(n.value)
+            out.append((n.lineno, 'shared-deferred:%s' % attr,
+                        'the Deferred filed in self.%s (line %d) is also '
+                        'returned to the caller, and a later call '
+                        'returns the SAME Deferred taken from there '
+                        '(line %d): both callers chain callbacks on one '
+                        'object, the second sees the first one\'s '
+                        'transformed result (hand out a fresh Deferred '
+                        'per caller)' % (attr, filed[attr], n.lineno)))
     for n in nodes:
         if isinstance(n, ast.Assign) and len(n.targets) == 1 and \
                 isinstance(n.targets[0], ast.Name):
@@ -379,6 +407,7 @@ def _control():
             'parse_from_template': {'shallow-copy-of-shared-mutables'},
             'parse_from_template_ok': set(),
             'introspect_coalesced': {'shared-deferred'},
+            'introspect_coalesced_direct': {'shared-deferred'},
             'introspect_fanout': set(),
             'pick_guarded': set(), 'pick_else': set(), 'frame_fresh': set(),
             'parse_rule_ok': set()}
